@@ -361,7 +361,9 @@ var comps = []string{"ns", "MB", "B", "bytes", "sec", "s", "op", "GC", "allocs",
 
 func genUnit(t *rapid.T, allowSpace bool) string {
 	if rapid.IntRange(0, 9).Draw(t, "lit") == 0 {
-		return rapid.SampledFrom([]string{"ns/op", "MB/s", "B/op", "allocs/op", "ns", "MB", "ns/MB", "MB/ns", "ns-MB", "ns*ns", "MB*MB*MB", "sec/op", "B/s"}).Draw(t, "literal")
+		return rapid.SampledFrom([]string{"ns/op", "MB/s", "B/op", "allocs/op", "ns", "MB", "ns/MB", "MB/ns", "ns-MB", "ns*ns", "MB*MB*MB", "sec/op", "B/s",
+			// words that merely end in (or contain) the letters of a scaled component
+			"tokens/op", "conns/op", "txns/op", "iterations/op", "MBs/op", "nsec/op", "gc-ns/op", "turns", "xMB/s"}).Draw(t, "literal")
 	}
 	seps := []string{"/", "*", "-"}
 	if allowSpace {
